@@ -19,6 +19,7 @@
 //! 14 Slatepacker::get_slate     15 deser_slatepack(.., true) with the wallet key
 //! 16 helpers on raw JSON values (text layer included)   17 StoredProofInfo JSON
 //! 18 api::ECDHPubkey JSON   19 api::Token JSON   20 api::Ed25519SecretKey JSON
+//! 21 BlockFees JSON (build_coinbase on the foreign listener)
 //!
 //! result: [0, value..] | [1] error | [2] panic
 #[path = "codec_common/mod.rs"]
@@ -407,6 +408,13 @@ fn call(c: &Case, pools: &Pools) -> Result<Result<Vec<u64>, String>, String> {
 		20 => guarded(|| {
 			let s = String::from_utf8_lossy(bs).to_string();
 			serde_json::from_str::<vharness::api::Ed25519SecretKey>(&s)
+				.map(|_| vec![])
+				.map_err(|e| e.to_string())
+		}),
+		// JSON-RPC parameter of build_coinbase on the (unauthenticated) foreign listener
+		21 => guarded(|| {
+			let s = String::from_utf8_lossy(bs).to_string();
+			serde_json::from_str::<vharness::libwallet::BlockFees>(&s)
 				.map(|_| vec![])
 				.map_err(|e| e.to_string())
 		}),
@@ -1288,6 +1296,22 @@ fn gen_cases(p: &mut Prng, pools: &Pools, scale: u64) -> Vec<Case> {
 			let n = rand_len(p).min(80);
 			push(*d, 0, p.bytes(n), "random");
 		}
+	}
+	// build_coinbase's BlockFees: valid, every single-field mutation, key ids that are not hex
+	for _ in 0..(2 * s) {
+		let kid = hex(&p.bytes(17));
+		let bf = json!({"fees": "0", "height": p.below(1000).to_string(), "key_id": kid});
+		push(21, 0, bf.to_string().into_bytes(), "valid");
+		let mut ms = vec![];
+		mutate_json(p, &bf, 120, &mut ms);
+		for m in ms {
+			push(21, 0, m, "mutation");
+		}
+		for k in ["zz", "0", "a\u{e9}b", "\u{e9}", "0x", "", "03zz"].iter() {
+			push(21, 0, format!("{{\"fees\":0,\"height\":1,\"key_id\":\"{}\"}}", k).into_bytes(), "text-layer");
+		}
+		push(21, 0, b"{\"fees\":0,\"height\":1,\"key_id\":null}".to_vec(), "valid");
+		push(21, 0, b"{\"fees\":0,\"height\":1}".to_vec(), "valid");
 	}
 	// payment proof JSON / stored proof JSON / EncryptedBody
 	for _ in 0..(3 * s) {
